@@ -7,6 +7,9 @@ ids = [json.loads(l)["id"] for l in open(os.path.join(ROOT, "properties.jsonl"))
 TRUST = "trusted base: Linux AF_UNIX+epoll standing in for TCP (address translation, EPOLLHUP mapped to TCP semantics), the libc interposition layer, the scripted peers and reference oracles in /verif/sim; release semantics (debug assertions off); x86-64 only. A clean batch is evidence over the sampled schedules, not proof."
 
 CHECKS = {
+ "C16": dict(engine="netsim", design="5/C16", category="exploration",
+   text="Seeded deterministic simulation of the real worker under mixes of session outcomes and connection storms with max_connections 2..64: the hooks count the client sockets sozu is serving at every step (never above max_connections); after all peers left and virtual time passed every timeout, no client/backend socket remains open, QueryMetrics gauges equal their pre-traffic baseline and a fresh probe is served.",
+   technique="deterministic simulation with fault injection; step-wise admission invariant from the syscall seam; baseline-vs-quiescence footprint comparison"),
  "C02": dict(engine="netsim", design="5/C02", category="exploration",
    text="Seeded deterministic simulation of the real worker with one injected cause per plan on a victim request (no route / denied / no backend / refused / black-holed connect / close on accept / backend close or stall at a byte offset / garbage / slow answer / client stall / keep-alive close) next to clean traffic; enumeration of close/stall at every response offset for small responses; the victim is judged against the cause->allowed-outcome table (exactly one answer, right status, explicit abort never a complete-looking short body, answer within the configured timeouts in virtual time), the rest by the C01 oracle.",
    technique="deterministic simulation with fault injection at byte offsets and lifecycle points; history oracle per request; virtual-time liveness bound"),
